@@ -19,7 +19,7 @@ import gen_vdesigns as GV
 OBLIGATIONS = [
     'C03.checkE_iff', 'C03.check_sound', 'C03.check_complete', 'C03.error_is_real',
     'C03.modErrs_nil', 'C03.onceErrs_nil', 'C03.headerErrs_nil', 'C03.kwErrs_nil', 'C03.declErrs_nil', 'C03.connErrs_nil',
-    'C03.instSigErrs_nil', 'C03.instErrs_nil', 'C03.driverErrs_nil', 'C03.bodyErrs_nil',
+    'C03.instSigErrs_nil', 'C03.instErrs_nil', 'C03.driverErrs_nil', 'C03.bodyErrs_nil', 'C03.pdefErrs_nil',
     'V.WF.mem_exprIds', 'V.WF.mem_lhsIds', 'V.WF.mem_stmtIds', 'V.WF.mem_stmtTargets', 'V.WF.mem_itemIds', 'V.WF.mem_uses',
     'C03.instErrs_congr', 'C03.itemDrivers_congr', 'C03.bodyErrs_congr', 'C03.lookup_replace', 'C03.same_sig_interchangeable',
     'C03.abs_binding_counterexample_prefix_naming',
@@ -76,10 +76,9 @@ PROPOSED_FINDINGS = [
      "class_expr": "r.get('kind')=='wf' and r.get('err')=='dupDecl' and r['source_kinds']==['port','variable']",
      "witness": {"design": "self.out = addOut('cnt', q); self.cnt = 0", "emitted": "output reg [7:0] cnt … integer cnt;"},
      "what": "a transpiled state variable whose Python name equals a port name is declared a second time as `integer`"},
-    {"id": "C03-param-no-default", "property": "C03", "status": "known", "anchor": "py4hw/rtl_generation.py:699",
-     "class_expr": "r.get('kind')=='syntax' and r.get('rule')=='param-default'",
-     "witness": {"design": "test/interactive/tb_Parameter.py: addParameter('INIT', 1)", "emitted": "module ParamTop #( parameter INIT) ("},
-     "what": "createModuleHeader emits `parameter NAME` without a value: IEEE 1364-2005 requires `parameter NAME = constant` (only SystemVerilog allows the bare form, and not for the top module)"},
+    {"id": "C03-param-no-default", "property": "C03", "status": "fixed", "commit": "73113b7", "anchor": "py4hw/rtl_generation.py:699",
+     "witness": {"design": "test/interactive/tb_Parameter.py: addParameter('INIT', 1)", "emitted": "before 73113b7: module ParamTop #( parameter INIT) ("},
+     "what": "fixed: property=C03 73113b7 createModuleHeader emitted `parameter NAME` without a value (IEEE 1364-2005 requires `parameter NAME = constant`); now `parameter NAME = <value>`; a bare parameter is the WF error paramNoDefault (rule R-pdef), regression: param stream"},
     {"id": "C03-param-name-collision", "property": "C03", "status": "known", "anchor": "py4hw/rtl_generation.py:699",
      "class_expr": "r.get('kind')=='wf' and r.get('err')=='dupDecl' and len(r['source_kinds'])>=2 and r['sources_distinct'] and 'param' in r['source_kinds'] "
                    "and set(r['source_kinds'])<={'port','wire','instance','clock','param'}",
@@ -317,7 +316,7 @@ class Pipeline:
         ctx = dict(job=job, g=g, text=ctext, objs=cnames, first=first, label=label)
         res.count((job['kind'], ctext), hist={'stream': job['kind'].split(':')[0]})
         try:
-            tree = vparse.parse(ctext)
+            tree, pdefs = P.parse_d(ctext)
         except vparse.VParseError as e:
             msg = str(e)
             m = re.search(r'keyword (\w+) used', msg) or re.search(r"got '(\w+)'", msg)
@@ -330,15 +329,7 @@ class Pipeline:
             res.hist('parse', 'error')
             return None
         res.hist('parse', 'ok')
-        toks = vparse.tokenize(ctext)
-        for i, t in enumerate(toks):
-            # IEEE 1364-2005 §4.10.1 / A.2.1.1: a parameter declaration is a list of assignments `name = constant_expression`;
-            # harness/vparse.py accepts the SystemVerilog form without a value, so the rule is enforced here
-            if t[1] == 'parameter' and i + 2 < len(toks) and toks[i + 2][1] != '=':
-                fail(res, f'parameter {toks[i + 1][1]} is declared without a default value (not legal IEEE 1364-2005)',
-                     dict(kind='syntax', rule='param-default', name=toks[i + 1][1], text=ctext[:800], **label))
-                res.hist('syntax_errors', 'param-default')
-        rt = P.roundtrip(ctext, tree)
+        rt = P.roundtrip(ctext, tree, pdefs)
         if rt is not None:
             res.disagree('parser-roundtrip', dict(mismatch=rt, text=ctext[:800], **label))
         for k, v in vparse.count_constructs(tree).items():
@@ -346,7 +337,7 @@ class Pipeline:
         res.hist('modules_per_design', min(len(tree) - 1, 20))
         ctx['tree'] = tree
         ext = job.get('ext', '(design)')
-        ctx['check_ix'] = self.ask(f'check (env {vparse.sexp(tree)} {ext})')
+        ctx['check_ix'] = self.ask(f'check (env {vparse.sexp(tree)} {ext} {P.pdefs_sexp(pdefs)})')
         # second clause: every pair (first emitted, other object) under one module name, each generated alone
         ctx['pairs'] = {}
         groups = {}
@@ -869,12 +860,12 @@ def run_corpus(pipe, res):
             if f.endswith('.json') and f != 'proposed_findings.json':
                 for c in json.load(open(os.path.join(cdir, f))):
                     try:
-                        tree = vparse.parse(c['text'])
+                        tree, pdefs = P.parse_d(c['text'])
                         ext = vparse.sexp(vparse.parse(c['ext'])) if c.get('ext') else '(design)'
                     except vparse.VParseError as e:
                         res.disagree('corpus', dict(case=c['name'], what=f'does not parse: {e}'))
                         continue
-                    items.append((c, pipe.ask(f'check (env {vparse.sexp(tree)} {ext})')))
+                    items.append((c, pipe.ask(f'check (env {vparse.sexp(tree)} {ext} {P.pdefs_sexp(pdefs)})')))
 
     def done(out):
         for c, i in items:
